@@ -608,6 +608,10 @@ def update_wrapper(wrapper, func, injected=None, expected=None, build_from=None,
 
     execdict = dict(_call=wrapper, _func=func)
     fully_wrapped = fb.get_func(execdict, with_dict=update_dict)
+    if func.__doc__ is None and not fb.doc:
+        # FunctionBuilder's default doc is '', but a function
+        # without a docstring should stay without one
+        fully_wrapped.__doc__ = None
 
     if hide_wrapped and hasattr(fully_wrapped, '__wrapped__'):
         del fully_wrapped.__dict__['__wrapped__']
